@@ -19,7 +19,8 @@ for n in range(1, 21):
         sid = f'C{n:02d}-{v}{suffix}'
         out = f'/verif/seeded/{sid}'
         os.makedirs(out, exist_ok=True)
-        shutil.copy(f'{d}/{v}.patch.diff', f'{out}/patch.diff')
+        if not os.path.exists(f'{out}/patch.at-7dd26ee.diff'):  # a patch rebased onto a later /repo HEAD stays
+            shutil.copy(f'{d}/{v}.patch.diff', f'{out}/patch.diff')
         shutil.copy(f'{d}/{v}.demo.diff', f'{out}/demo.diff')
         if os.path.exists(f'{d}/{v}.notes.md'): shutil.copy(f'{d}/{v}.notes.md', f'{out}/notes.md')
         key = ({'': '/tmp/seed/results.txt', '-r2': '/tmp/seed/results.r2.txt', '-r3': '/tmp/seed/results.r3.txt'}[suffix], (f'{n:02d}', v))
